@@ -1578,10 +1578,7 @@ def _abort_flow(
         and not flow_state.new_instance_started
     ):
         reference_flow_state = flow_state
-        if (
-            flow_state.parent_uid
-            and state.flow_states[flow_state.parent_uid].flow_id == flow_state.flow_id
-        ):
+        if _is_child_activated_flow(state, flow_state):
             reference_flow_state = state.flow_states[flow_state.parent_uid]
 
         # An instance that failed before it ever reached a waiting statement may just
@@ -1709,10 +1706,7 @@ def _finish_flow(
         and not flow_state.new_instance_started
     ):
         event = flow_state.start_event(matching_scores)
-        if (
-            flow_state.parent_uid
-            and state.flow_states[flow_state.parent_uid].flow_id == flow_state.flow_id
-        ):
+        if _is_child_activated_flow(state, flow_state):
             event.arguments.update({"source_flow_instance_uid": flow_state.parent_uid})
         else:
             event.arguments.update({"source_flow_instance_uid": flow_state.uid})
@@ -2539,7 +2533,11 @@ def _is_reference_activated_flow(state: State, flow_state: FlowState) -> bool:
     return (
         flow_state.activated > 0
         and flow_state.parent_uid is not None
-        and flow_state.flow_id != state.flow_states[flow_state.parent_uid].flow_id
+        # The parent (the first activator) may have ended long ago and been cleaned up
+        and (
+            flow_state.parent_uid not in state.flow_states
+            or flow_state.flow_id != state.flow_states[flow_state.parent_uid].flow_id
+        )
     )
 
 
